@@ -76,6 +76,7 @@ type pushed struct {
 	forceID     uint64              // table id of an event without a layout
 	sentDB      string              // schema name and table id the event went out with
 	sentID      uint64
+	batch       int                 // the operation (statement / transaction) that produced it
 }
 
 // fetch is one information_schema.columns lookup RunPollLoop made: the table asked for and the answer it got.
@@ -586,6 +587,7 @@ func runCase(schema *sqlgen.Schema, c Case) (res *result) {
 	if minimal { // one live query on all users, one upsert, the event carries one column more than the cached column map
 		corruptPct = 100
 	}
+	curBatch, multiRow := 0, 0
 	srv.OnCommit(func(table string, before, after []driver.Value) {
 		layoutMu.Lock()
 		m := res.layouts[table]
@@ -597,7 +599,7 @@ func runCase(schema *sqlgen.Schema, c Case) (res *result) {
 		if after != nil {
 			a = m.BinlogRow(after)
 		}
-		p := &pushed{table: table, layout: m}
+		p := &pushed{table: table, layout: m, batch: curBatch}
 		switch {
 		case b == nil:
 			p.kind, p.rows = "write", [][]interface{}{a}
@@ -607,6 +609,19 @@ func runCase(schema *sqlgen.Schema, c Case) (res *result) {
 			p.kind, p.rows = "update", [][]interface{}{b, a}
 		}
 		e.mu.Lock()
+		// row changes of one transaction on one table and of one kind travel in one rows event (MySQL packs the
+		// rows a statement changes into as few events as fit)
+		if n := len(e.pending); n > 0 && r.Chance(60) {
+			last := e.pending[n-1]
+			if !last.tableMap && !last.foreign && !last.unknown && last.table == table && last.kind == p.kind &&
+				last.layout == m && last.undecodable == "" && last.batch == curBatch {
+				last.rows = append(last.rows, p.rows...)
+				last.what = fmt.Sprintf("%s %s (table id %d) %v", last.kind, table, m.TableID, last.rows)
+				multiRow++
+				e.mu.Unlock()
+				return
+			}
+		}
 		if r.Chance(corruptPct) {
 			how := r.Intn(3)
 			if minimal {
@@ -681,8 +696,10 @@ func runCase(schema *sqlgen.Schema, c Case) (res *result) {
 				ev = livesim.TableMapEvent(dbn, p.table, id, n)
 			case p.kind == "write":
 				ev = livesim.RowsEvent(dbn, p.table, id, nil, p.rows[0])
+				ev.Event.(*replication.RowsEvent).Rows = p.rows // one image per inserted row
 			case p.kind == "delete":
 				ev = livesim.RowsEvent(dbn, p.table, id, p.rows[0], nil)
+				ev.Event.(*replication.RowsEvent).Rows = p.rows // one image per deleted row
 			default:
 				ev = livesim.RowsEvent(dbn, p.table, id, p.rows[0], p.rows[0])
 				ev.Event.(*replication.RowsEvent).Rows = p.rows
@@ -802,6 +819,7 @@ func runCase(schema *sqlgen.Schema, c Case) (res *result) {
 	}
 	var opsDesc []string
 	for i := 0; i < nops; i++ {
+		curBatch++
 		ctx := bg
 		inTx := r.Chance(20)
 		var commit func() error
@@ -817,7 +835,7 @@ func runCase(schema *sqlgen.Schema, c Case) (res *result) {
 		}
 		nin := 1
 		if commit != nil {
-			nin = 1 + r.Intn(3)
+			nin = 1 + r.Intn(4)
 		}
 		for k := 0; k < nin; k++ {
 			var err error
@@ -1111,6 +1129,9 @@ func runCase(schema *sqlgen.Schema, c Case) (res *result) {
 		}
 	}
 	res.hist = append(res.hist, fmt.Sprintf("queries:%d", len(e.queries)))
+	if multiRow > 0 {
+		res.hist = append(res.hist, "event:multi-row")
+	}
 	res.key = fmt.Sprint(c.Seed)
 	res.sample = map[string]interface{}{"queries": func() []string {
 		var ks []string
